@@ -40,7 +40,7 @@ def be64 (f : File) (p : Nat) : Nat := beN f p 8
 /-- reinterpretation as `int64_t` -/
 def toS64 (x : Nat) : Int := if x < S63 then (x : Int) else (x : Int) - (W : Int)
 
-inductive Status | ok | corrupt | notimpl | system
+inductive Status | ok | corrupt | notimpl | system | eof
   deriving DecidableEq, Repr, Inhabited
 
 /-- state of the scan loop of `flatmap_file_init` (`segidx = offs.length`) -/
@@ -78,6 +78,36 @@ def scan (f : File) : Nat → Scan → ScanRes
         | (.nomem, _) => .err .system s.flatpos               -- unreachable: allocation succeeds
         | (.oob, _) => .oob
 
+/-- `fcache_pread` of the 16-byte record header at `p` from a regular file of `fsz` bytes: the read(2) path refuses a
+    cache block (4096 bytes) that lies wholly behind the end of the file, except block 0 (`fcache_get_read`); the blocks
+    a header touches are consecutive, so the last one decides. -/
+def hdrBehindEof (fsz p : Nat) : Bool :=
+  let b := (p + RECHDR - 1) / 4096 * 4096
+  decide (0 < b ∧ fsz ≤ b)
+
+/-- `scan` on a regular file of `fsz` bytes: a record header that cannot be read ends the scan with `KDUMP_ERR_EOF`
+    (a stream without end marker); everything else is `scan`. -/
+def scanE (f : File) (fsz : Nat) : Nat → Scan → ScanRes
+  | 0, _ => .fuel
+  | fuel+1, s =>
+    if hdrBehindEof fsz s.flatpos then .err .eof s.flatpos
+    else
+    let pos := toS64 (be64 f s.flatpos)
+    if pos = -1 then .ok s
+    else if pos < 0 then .err .corrupt s.flatpos
+    else
+      let size := toS64 (be64 f (s.flatpos + 8))
+      if size ≤ 0 then .err .corrupt s.flatpos
+      else
+        let dpos := s.flatpos + RECHDR
+        let off : Int := (dpos : Int) - pos
+        match mapSet s.map pos.toNat ⟨size.toNat - 1, (s.offs.length : Int)⟩ true with
+        | (.ok, m') =>
+          if dpos + size.toNat ≥ S63 then .ub
+          else scanE f fsz fuel ⟨m', s.offs ++ [off], dpos + size.toNat⟩
+        | (.nomem, _) => .err .system s.flatpos
+        | (.oob, _) => .oob
+
 /-- `"makedumpfile"` padded with NULs to `MDF_SIG_LEN` -/
 def magic : List Nat := [109, 97, 107, 101, 100, 117, 109, 112, 102, 105, 108, 101, 0, 0, 0, 0]
 
@@ -96,6 +126,18 @@ def flatOpen (f : File) (fuel : Nat) : Open :=
   else if be64 f 16 ≠ 1 then .err .notimpl          -- MDF_TYPE_FLAT_HEADER
   else if be64 f 24 ≠ 1 then .err .notimpl          -- MDF_VERSION_FLAT_HEADER
   else match scan f fuel ⟨[], [], HDR⟩ with
+    | .ok s => .flat s.map s.offs
+    | .err st _ => .err st
+    | .ub => .ub
+    | .oob => .oob
+    | .fuel => .fuel
+
+/-- `flatOpen` on a regular file of `fsz` bytes -/
+def flatOpenE (f : File) (fsz fuel : Nat) : Open :=
+  if readFile f 0 16 ≠ magic then .plain
+  else if be64 f 16 ≠ 1 then .err .notimpl
+  else if be64 f 24 ≠ 1 then .err .notimpl
+  else match scanE f fsz fuel ⟨[], [], HDR⟩ with
     | .ok s => .flat s.map s.offs
     | .err st _ => .err st
     | .ub => .ub
